@@ -1,6 +1,72 @@
-(* props/C09.v -- C09: partial reads equal the same restriction of the full read. (being extended) *)
-From Geff Require Import Base Dtype Vlen Tree Validate Write Read.
+(* props/C09.v -- C09: partial reads equal the same restriction of the full read. *)
+From Geff Require Import Base Dtype Vlen Tree Validate Write Read ReadMaskLemmas.
+From Geff.Gen Require Import Consts.
+Open Scope string_scope.
 Open Scope list_scope.
-Theorem C09_placeholder_select_nil : forall (A : Type) (rows : list A), select [] rows = [].
-Proof. intros A rows. destruct rows; reflexivity. Qed.
-Print Assumptions C09_placeholder_select_nil.
+
+(* For every store, every choice of property names and every node/edge mask: building with the masks gives
+   exactly `restrict` of the graph built without masks -- the kept nodes in stored order, the selected edges whose
+   two endpoints are both kept, every loaded property row (values, missing mask, var-length element) selected with
+   its node or edge, metadata unchanged.  store_ok asks only that the offset table of a variable-length property is
+   a well-formed array of rank >= 1 (true of every store whose arrays exist). *)
+Theorem C09_restrict : forall rd nnames enames nm em gfull,
+  store_ok rd (match nnames with Some l => l | None => rd_nnames rd end)
+              (match enames with Some l => l | None => rd_enames rd end) ->
+  build rd nnames enames None None = Ok gfull ->
+  build rd nnames enames nm em = Ok (restrict gfull nm em).
+Proof. exact build_restrict. Qed.
+Print Assumptions C09_restrict.
+
+(* no returned edge refers to a node that was not returned *)
+Theorem C09_closed : forall g keep em x,
+  In x (a_flat (g_eids (restrict g (Some keep) em))) -> In x (a_flat (g_nids (restrict g (Some keep) em))).
+Proof. exact restrict_closed. Qed.
+Print Assumptions C09_closed.
+
+(* property subsets: exactly the requested properties are returned, the metadata describes exactly them, and each
+   returned property is the decoding of its own stored group (it does not depend on which other names were asked) *)
+Theorem C09_names : forall rd nn en nm em g,
+  NoDup nn -> NoDup en ->
+  build rd (Some nn) (Some en) nm em = Ok g ->
+  akeys (g_nprops g) = nn /\ akeys (g_eprops g) = en /\
+  (forall k, In k (akeys (md_nprops (g_md g))) <-> In k nn) /\
+  (forall k, In k (akeys (md_eprops (g_md g))) <-> In k en) /\
+  (forall name p, In (name, p) (g_nprops g) ->
+     exists zp pm, read_prop (rd_root rd) path_NODES name = Ok zp /\ alookup name (md_nprops (rd_md rd)) = Some pm /\
+                   load_prop zp nm pm = Ok p).
+Proof. exact build_names. Qed.
+Print Assumptions C09_names.
+
+(* one property: loading under a mask = masking the full load (var-length: the offset rows are selected, data is shared) *)
+Theorem C09_prop : forall zp keep pm p,
+  (pm_varlength pm = true -> wf_arr (zp_values zp) = true /\ exists n rest, a_shape (zp_values zp) = n :: rest) ->
+  load_prop zp None pm = Ok p ->
+  load_prop zp (Some keep) pm = Ok (mask_prop (Some keep) p).
+Proof. exact load_prop_mask. Qed.
+Print Assumptions C09_prop.
+
+(* non-vacuity: a stored 3-node graph with a masked var-length property; masking nodes [1;0;1] keeps nodes 5,7,
+   the edge (7,5), drops (5,6), and selects the var-length elements of nodes 5 and 7 *)
+Definition ex_store : znode :=
+  ZG [("geff", AGeff (Some (mkmd true None [("v", mkpm DI8 true None None None)] [] 0%Z)))]
+     [("nodes", ZG [] [("ids", ZA (mkarr DU8 [3%nat] [5; 6; 7]%Z));
+                       ("props", ZG [] [("v", ZG [] [("values", ZA (mkarr DU64 [3%nat; 2%nat] [0; 2; 2; 0; 2; 1]%Z));
+                                                     ("missing", ZA (mkarr DBool [3%nat] [0; 1; 0]%Z));
+                                                     ("data", ZA (mkarr DI8 [3%nat] [1; 2; 3]%Z))])])]);
+      ("edges", ZG [] [("ids", ZA (mkarr DU8 [2%nat; 2%nat] [5; 6; 7; 5]%Z))])].
+
+Example C09_nonvacuous :
+  exists rd gfull,
+    reader_init KObj (Some ex_store) true = Ok rd /\ build rd None None None None = Ok gfull /\
+    store_ok rd (rd_nnames rd) (rd_enames rd) /\
+    let g := restrict gfull (Some [true; false; true]) None in
+    a_flat (g_nids g) = [5; 7]%Z /\ a_flat (g_eids g) = [7; 5]%Z /\
+    g_nprops g = [("v", mkprop (PVlen [Build_varr DI8 [2%nat] [1; 2]%Z; Build_varr DI8 [1%nat] [3]%Z])
+                               (Some (mkarr DBool [2%nat] [0; 0]%Z)))].
+Proof.
+  eexists. eexists. split; [vm_compute; reflexivity|]. split; [vm_compute; reflexivity|]. split.
+  - split.
+    + intros name zp pm [<-|[]] Hr Hl Hv. vm_compute in Hr. inversion Hr; subst zp. split; [reflexivity | eexists; eexists; reflexivity].
+    + intros name zp pm [].
+  - vm_compute. repeat split.
+Qed.
